@@ -59,6 +59,10 @@ class NetSession:
         simradio.patch_time(self.world)
         RF24NetworkHeader._RF24NetworkHeader__next_id = 0
         self.closed = closed
+        # schedule 2 ("lazy", implementation-only: it has no Lean twin): the other nodes do NOT run at the running node's
+        # send(); they run at its resend() and read() polls only - so a router's RX FIFO fills up (3 frames) before the
+        # router runs, a sender stalls on a full FIFO, and a node retries a transmission while frames wait in its own FIFO
+        self.lazy = False
         self.nodes = []      # node objects in creation order
         self.names = []
         self.clocks = []
@@ -86,7 +90,7 @@ class NetSession:
         real_send, real_resend = node._rf24.send, node._rf24.resend
 
         def send(buf, ask_no_ack=False, force_retry=0, send_only=False):
-            if self.closed:
+            if self.closed and not self.lazy:
                 self._run_others()
             with self.world.polling():
                 return real_send(buf, ask_no_ack, force_retry, send_only)
@@ -321,7 +325,8 @@ def run_line(line: str) -> str:
     toks = line.split()
     if toks[0] != "net":
         raise Infra("not a net line")
-    s = NetSession(int(toks[1]), toks[2] == "1")
+    s = NetSession(int(toks[1]), toks[2] in ("1", "2"))
+    s.lazy = toks[2] == "2"
     try:
         return s.run(split_ops(toks[3:]))
     finally:
